@@ -121,6 +121,12 @@ def handle : Handler := fun op args =>
       | some d => some s!"ok {d} {showBool k.compressed}"
       | none => some "ok public"
     | .error e => some (showErr e)
+  | "is_sec", [sec] => do some ("ok " ++ showBool (KeyOps.isSec (← parseHex? sec)))
+  -- a plain Key has no hierarchy: subkey(), subkey_for_path(p), subkeys(p) are the key itself
+  | "key_nohier", [_net, d, _comp] => do
+    match KeyCtor.keyFromSecretWith k1 mulFast (← parseInt? d) true with
+    | .ok _ => some "ok 1 1 1"
+    | .error e => some (showErr e)
   | "key_verify", [sec, h, sig] => do
     match KeyCtor.keyFromSec k1 (← parseHex? sec) with
     | .error e => some (showErr e)
